@@ -105,43 +105,45 @@ type Sim struct {
 	// StallPermille: chance per step (with tasks parked) that the scheduler lets virtual time pass.
 	StallPermille int
 
-	mu        sync.Mutex
-	parked    []*task
-	occ       map[string]int
-	wake      chan struct{}
-	free      bool // drain mode: yields return immediately
-	killed    map[string]bool
-	killAt    map[string]string // node -> "label#occ" at which it is crashed
-	onKill    map[string]func()
-	fired     map[string]int
-	firedAt   []string
-	steps     int
-	stalls    int
-	maxParked int
-	choicePts int // steps where >= 2 tasks were parked
-	sigHash   uint64
-	multiHash uint64
-	stalled   map[string]bool
-	logText   []string
-	keepText  bool
-	start     time.Time
-	lastFault int // step of last injected fault
+	mu         sync.Mutex
+	parked     []*task
+	occ        map[string]int
+	wake       chan struct{}
+	free       bool // drain mode: yields return immediately
+	killed     map[string]bool
+	killAt     map[string]string // node -> "label#occ" at which it is crashed
+	onKill     map[string]func()
+	fired      map[string]int
+	firedGroup map[string]int // "deadline@<job unit>" -> timeouts injected on that unit
+	firedAt    []string
+	steps      int
+	stalls     int
+	maxParked  int
+	choicePts  int // steps where >= 2 tasks were parked
+	sigHash    uint64
+	multiHash  uint64
+	stalled    map[string]bool
+	logText    []string
+	keepText   bool
+	start      time.Time
+	lastFault  int // step of last injected fault
 	// Observers
 	OnStep func(s *Sim, label string)
 }
 
 func NewSim(seed uint64, policy Policy) *Sim {
 	return &Sim{
-		Seed:     seed,
-		Policy:   policy,
-		occ:      map[string]int{},
-		wake:     make(chan struct{}, 1),
-		killed:   map[string]bool{},
-		killAt:   map[string]string{},
-		onKill:   map[string]func(){},
-		fired:    map[string]int{},
-		keepText: true,
-		start:    time.Now(),
+		Seed:       seed,
+		Policy:     policy,
+		occ:        map[string]int{},
+		wake:       make(chan struct{}, 1),
+		killed:     map[string]bool{},
+		killAt:     map[string]string{},
+		onKill:     map[string]func(){},
+		fired:      map[string]int{},
+		firedGroup: map[string]int{},
+		keepText:   true,
+		start:      time.Now(),
 	}
 }
 
@@ -312,6 +314,20 @@ func (s *Sim) choose(P []*task) *task {
 	return best
 }
 
+// jobUnit extracts "r<req>,s<stage>,seg<n>" from a transport label "...t2[r1,s0,seg3,try2]...".
+func jobUnit(label string) string {
+	i := strings.Index(label, "t2[")
+	if i < 0 {
+		return ""
+	}
+	rest := label[i+3:]
+	j := strings.Index(rest, ",try")
+	if j < 0 {
+		return ""
+	}
+	return rest[:j]
+}
+
 func (s *Sim) faultFor(t *task) Decision {
 	addr := fmt.Sprintf("%s#%d", t.label, t.occ)
 	if s.Faults.Forced != nil {
@@ -335,6 +351,12 @@ func (s *Sim) faultFor(t *task) Decision {
 		}
 		if mx := s.Faults.Max[k]; mx > 0 && s.fired[k] >= mx {
 			continue
+		}
+		// three execution timeouts on one job are fatal by design (RemoteWorker): a job unit gets at most two
+		if strings.HasPrefix(k, "deadline_") {
+			if g := jobUnit(t.label); g != "" && s.firedGroup["deadline@"+g] >= 2 {
+				continue
+			}
 		}
 		if int(H(s.Seed, "fault", k, t.label, fmt.Sprint(t.occ))%1000) < rate {
 			return Decision{Fault: k, Arg: int(H(s.Seed, "farg", t.label, fmt.Sprint(t.occ)) % 64)}
@@ -421,6 +443,11 @@ func (s *Sim) Drive(done <-chan struct{}, maxSteps int, idleLimit time.Duration)
 		}
 		if d.Fault != "" {
 			s.fired[d.Fault]++
+			if strings.HasPrefix(d.Fault, "deadline_") {
+				if g := jobUnit(t.label); g != "" {
+					s.firedGroup["deadline@"+g]++
+				}
+			}
 			s.firedAt = append(s.firedAt, fmt.Sprintf("%s@%s#%d", d.Fault, t.label, t.occ))
 			s.lastFault = s.steps
 		}
